@@ -39,6 +39,20 @@ theorem pick_length_of_lt (xs : List α) (ps : List Nat) (h : ∀ p ∈ ps, p < 
     rw [pick_cons, List.getElem?_eq_getElem hp]
     simp [ih (fun q hq => h q (by simp [hq]))]
 
+theorem pick_getElem? (xs : List α) (ps : List Nat) (h : ∀ p ∈ ps, p < xs.length) :
+    ∀ j : Nat, (pick xs ps)[j]? = (ps[j]?).bind (fun i => xs[i]?) := by
+  induction ps with
+  | nil => intro j; simp [pick]
+  | cons p ps ih =>
+    intro j
+    have hp : p < xs.length := h p (by simp)
+    rw [pick_cons, List.getElem?_eq_getElem hp]
+    cases j with
+    | zero => simp [List.getElem?_eq_getElem hp]
+    | succ j =>
+      have := ih (fun q hq => h q (by simp [hq])) j
+      simpa using this
+
 theorem pick_range_take (xs : List α) : ∀ n, n ≤ xs.length → pick xs (List.range n) = xs.take n := by
   intro n
   induction n with
